@@ -50,6 +50,10 @@ pub struct Case {
     /// the max_headers *setting* (the number of fields still follows max_headers / fill): 0 = max_headers itself, 1 = 24577, 2 = 100 000, 3 = usize::MAX
     #[serde(default)]
     pub big_limit: u8,
+    /// 1 / 2: the response additionally declares `Content-Encoding: gzip` / `deflate` and a `Content-Length`, followed by a
+    /// validly coded body: the two fields are reported like any other (decoding the body does not take them away)
+    #[serde(default)]
+    pub coded: u8,
 }
 
 pub struct C04;
@@ -185,7 +189,7 @@ impl Property for C04 {
     const ID: &'static str = "C04";
     const RULE: &'static str = "proptest-generated heads: status 100..=999, version token, reason variants, max_headers m in 1..150 with 0..=m fields (exactly m forced in >= 10%), \
 names over the token alphabet with case-variant duplicates, values (empty / visible / inner SP+HTAB / obs-text / long / bare-LF folded / line exactly at the 16 KiB limit) with optional \
-surrounding blanks, optional Transfer-Encoding: chunked, each head sent under 1..3 segmentations; oracle = exact status, per-name wire-order value lists, field count, hidden Transfer-Encoding, \
+surrounding blanks, optional Transfer-Encoding: chunked, optional gzip/deflate-coded body announced by Content-Encoding + Content-Length (both must be reported like any other field), each head sent under 1..3 segmentations; oracle = exact status, per-name wire-order value lists, field count, hidden Transfer-Encoding, \
 identical result for every segmentation. non-trivial = >=2 fields and one of {duplicate name, trimmed blanks, obs-text, LF continuation, head > 8 KiB, >=2 segments, exactly-m fields}";
 
     fn assumptions() -> Vec<String> {
@@ -218,9 +222,9 @@ identical result for every segmentation. non-trivial = >=2 fields and one of {du
             proptest::collection::vec(seg(), 1..4),
             // special long-line classes
             prop_oneof![8 => Just(0u8), 2 => Just(1u8), 1 => Just(2u8)],
-            prop_oneof![12 => Just(0u8), 1 => Just(1u8), 1 => Just(2u8), 1 => Just(3u8)],
+            (prop_oneof![12 => Just(0u8), 1 => Just(1u8), 1 => Just(2u8), 1 => Just(3u8)], prop_oneof![5 => Just(0u8), 1 => Just(1u8), 1 => Just(2u8)]),
         )
-            .prop_map(|(status, version, reason, max_headers, fill, mut headers, chunked, segs, long, big_limit)| {
+            .prop_map(|(status, version, reason, max_headers, fill, mut headers, chunked, segs, long, (big_limit, coded))| {
                 match long {
                     1 => {
                         if let Some(h) = headers.first_mut() {
@@ -244,6 +248,7 @@ identical result for every segmentation. non-trivial = >=2 fields and one of {du
                     chunked,
                     segs,
                     big_limit,
+                    coded,
                 }
             })
             .boxed()
@@ -256,7 +261,7 @@ identical result for every segmentation. non-trivial = >=2 fields and one of {du
         if case.chunked && count == 0 {
             count = 1;
         }
-        let n_other = if case.chunked { count - 1 } else { count };
+        let mut n_other = if case.chunked { count - 1 } else { count };
         // the header template list is cycled to reach the count; only the first occurrence of a long line is kept long
         let mut fields: Vec<(String, Vec<u8>, bool)> = vec![];
         for i in 0..n_other {
@@ -267,6 +272,27 @@ identical result for every segmentation. non-trivial = >=2 fields and one of {du
             h.seed = h.seed.wrapping_add((i / case.headers.len()) as u32);
             let wv = h.wire_value(h.name.len());
             fields.push((h.name.clone(), wv, h.tight));
+        }
+        // a coded body with its two describing fields, when they fit under the limit
+        let mut coded_body: Vec<u8> = vec![];
+        if case.coded != 0 && !case.chunked && count + 2 <= m {
+            let plain = b"the quick brown fox jumps over the lazy dog";
+            let mut w = crate::refhttp::deflate::BitWriter::new();
+            crate::refhttp::deflate::fixed_block(&mut w, plain, true);
+            w.align();
+            let (token, body) = if case.coded == 1 {
+                ("gzip", crate::refhttp::deflate::gzip_frame(&w.out, plain, &Default::default()))
+            } else {
+                ("deflate", w.out.clone())
+            };
+            let at = (case.fill as usize) % (fields.len() + 1);
+            fields.insert(at, ("Content-Encoding".to_string(), token.as_bytes().to_vec(), false));
+            let at2 = (case.fill as usize / 7) % (fields.len() + 1);
+            fields.insert(at2, ("content-length".to_string(), body.len().to_string().into_bytes(), case.fill % 2 == 0));
+            n_other += 2;
+            count += 2;
+            coded_body = body;
+            ctx.label("coded-body-with-content-encoding-and-length");
         }
         let te_pos = if case.chunked { Some(((case.fill as usize ^ 0x5a5a) % (n_other + 1)).min(n_other)) } else { None };
 
@@ -326,6 +352,7 @@ identical result for every segmentation. non-trivial = >=2 fields and one of {du
         if case.chunked {
             wire.extend_from_slice(b"0\r\n\r\n");
         }
+        wire.extend_from_slice(&coded_body);
 
         // expected
         let mut expected: BTreeMap<String, Vec<Vec<u8>>> = BTreeMap::new();
